@@ -280,7 +280,7 @@ theorem decodeMsg_encodeExtInRaw (p : ExtInParts) (h : PartsWF p) :
   obtain ⟨hs, hd, hf, hsi⟩ := h
   obtain ⟨src, dest, fee, init, form, body⟩ := p
   simp only at hs hd hf hsi
-  unfold decodeMsg
+  unfold decodeMsg decodeMsgS
   cases init with
   | absent =>
     cases form with
@@ -400,7 +400,7 @@ theorem decodeMsg_encodeMsgRaw (p : MsgParts) (h : MsgPartsWF p) :
   obtain ⟨hi, hsi⟩ := h
   obtain ⟨info, init, form, body⟩ := p
   simp only at hi hsi
-  unfold decodeMsg
+  unfold decodeMsg decodeMsgS
   cases init with
   | absent =>
     cases form with
